@@ -206,6 +206,8 @@ def check_equivariance(scn, rng, ref_cache, perm=None):
     ref, ref_exc = ref_cache["ref"]
     if ref_exc is not None or ref is None:
         return []
+    if scn["params"].get("dimension") or scn["params"].get("dim"):
+        return []  # the series runs along y: (y, x) positions are not independent pixels
     T, Y, X = scn["cube"]["shape"]
     if Y * X < 2:
         return []
